@@ -424,6 +424,7 @@ def run_rule(recipe, r, o, tier, verdict, stats, samples):
             res_q = impl_query(rule, q)
             rest = list(it)
             outs.append(("cached_mid", res_q, model_fast[j] if cflag else model_gen[j]))
+            adv_k = k
             seen = [R.to_int(x) for x in pre if x is not None] + [R.to_int(x) for x in rest]
             if seen != L:
                 verdict.violation({"kind": "iterator live across a query no longer yields list(rule)",
@@ -433,6 +434,9 @@ def run_rule(recipe, r, o, tier, verdict, stats, samples):
         outs.append(("cached_shared", impl_query(shared_c, q), model_fast[j] if cflag else model_gen[j]))
         outs.append(("cached_complete", impl_query(complete_c, q), model_fast[j]))
         for (mode, got, mod) in outs:
+            inp_q = {"recipe": recipe, "query": q, "mode": mode}
+            if mode == "cached_mid":
+                inp_q["advanced"] = adv_k
             stats["evaluations"] += 1
             stats["mode_hist"][mode] += 1
             if nontriv:
@@ -440,12 +444,12 @@ def run_rule(recipe, r, o, tier, verdict, stats, samples):
             if got != want[j]:
                 stats["impl_vs_listspec"] += 1
                 verdict.violation({"kind": "query disagrees with the listed sequence",
-                                   "input": {"recipe": recipe, "query": q, "mode": mode},
+                                   "input": inp_q,
                                    "impl": got, "list_spec": want[j], "L": L})
             elif got != mod:
                 stats["impl_vs_model"] += 1
                 verdict.violation({"kind": "correspondence: extracted model of the query differs from implementation",
-                                   "input": {"recipe": recipe, "query": q, "mode": mode},
+                                   "input": inp_q,
                                    "impl": got, "model": mod}, concrete=False)
         if spec[j] != want[j]:
             stats["coqspec_vs_listspec"] += 1
